@@ -3,15 +3,17 @@
    the assembler), compression levels 0..7.  One state per tuple (the tuple is the state), one printed row per state.                 *)
 EXTENDS LegacyKd, Json, TLC
 CONSTANTS MaxN, Emit
-VARIABLES n, hp, op, ip, level, hop, hip
-vars == <<n, hp, op, ip, level, hop, hip>>
+VARIABLES n, hp, op, ip, level, hop, hip, neg
+vars == <<n, hp, op, ip, level, hop, hip, neg>>
 Init == /\ n \in 1..MaxN /\ level \in 0..7
         /\ hp \in (n - 1)..(n + 1) /\ op \in (n - 1)..(n + 1) /\ ip \in (n - 1)..(n + 1)
         /\ hop \in BOOLEAN /\ hip \in BOOLEAN /\ ~(hop /\ hip)
+        /\ neg \in BOOLEAN /\ (neg => (~hop /\ ~hip /\ hp = n /\ op = n /\ ip = n))
 Next == UNCHANGED vars
 \* hop / hip: the assembler writes 2^27 instead of op / ip (a count no allocation of the cloud justifies)
-Row == LET r == IF hop THEN Decode(n, hp, hp + 1000, ip, level) ELSE Decode(n, hp, op, ip, level) IN
-       [mode |-> "lkd", n |-> n, hp |-> hp, op |-> op, ip |-> ip, level |-> level, hop |-> hop, hip |-> hip, out |-> r.out, np |-> r.np, faces |-> <<>>]
+\* neg: the assembler writes 0x80000000 for the header count AND the count in front of the payload (a negative int32: refused by the geometry header)
+Row == LET r == IF neg THEN Decode(n, -1, -1, ip, level) ELSE IF hop THEN Decode(n, hp, hp + 1000, ip, level) ELSE Decode(n, hp, op, ip, level) IN
+       [mode |-> "lkd", n |-> n, hp |-> hp, op |-> op, ip |-> ip, level |-> level, hop |-> hop, hip |-> hip, neg |-> neg, out |-> r.out, np |-> r.np, faces |-> <<>>]
 EmitRow == Emit => PrintT(ToJson(Row))
 Spec == Init /\ [][Next]_vars
 =============================================================================
